@@ -184,7 +184,7 @@ def _build(cls: str, kind: str, data: str, off, ln, files: _Files):
 
 def _array(dt: str, isz: int, bits: str):
     d = bitstring.Dtype(dt)
-    assert d.bitlength == isz and d.length == isz, (dt, isz)
+    assert d.bitlength == isz, (dt, isz)
     n = len(bits) - len(bits) % isz
     if len(bits) % isz and len(bits) % 2:            # two ways of getting trailing bits into an Array
         return bitstring.Array(dt, Bits(bin=bits[:n]) if n else None, trailing_bits="0b" + bits[n:])
@@ -523,8 +523,8 @@ REGIONS = {"tofile_lsb0_multichunk": _tofile_lsb0_multichunk}
 # ---------------------------------------------------------------- generators
 BYTE_KINDS = ["bytes", "bytearray", "mview", "bio", "fname", "handle"]
 DTYPES = {1: ["bool", "u1", "bin1"], 3: ["u3", "oct3", "i3", "bin3"], 4: ["hex4", "u4"], 7: ["u7", "i7"],
-          8: ["u8", "i8", "hex8", "p3binary8"], 12: ["u12", "i12"], 13: ["u13"], 16: ["u16", "float16", "bfloat16", "uintle16"],
-          24: ["u24", "intbe24"], 32: ["float32", "u32", "floatle32"], 64: ["float64", "i64"]}
+          8: ["u8", "i8", "hex8", "p3binary8", "bytes1"], 12: ["u12", "i12"], 13: ["u13"], 16: ["u16", "float16", "bfloat16", "uintle16", "bytes2"],
+          24: ["u24", "intbe24", "bytes3"], 32: ["float32", "u32", "floatle32"], 64: ["float64", "i64"]}
 
 
 def _rbytes(rng, n: int) -> bytes:
